@@ -201,7 +201,8 @@ Definition name_ok (n : option string) : bool :=
 
 Fixpoint valid (in_seq : bool) (p : ppat) : bool :=
   match p with
-  | PMatchValue _ => true
+  | PMatchValue (VEConst _) => true
+  | PMatchValue (VEDotted path) => Nat.leb 2 (List.length path)   (* a bare name is not a value pattern: "patterns may only match literals and attribute lookups" *)
   | PMatchSingleton (SOk _) => true
   | PMatchSingleton (SBadStr _) => false
   | PMatchSequence ps =>
